@@ -209,11 +209,74 @@ theorem att_flags_att_act {α : Type} (cx : PartCtx α) (aerr : Expr → Bool) (
     · exact ⟨id, id⟩
     · exact (att_acts_mono cx aerr rest _ _ _ _).flags
 
+theorem att_flags_acts_prefix {α : Type} (cx : PartCtx α) (aerr : Expr → Bool) (hasPass : Bool) (k : Nat) (m : α)
+    (a b : List ActA) (run : RunA) :
+    FlagsLe (evalActsA cx aerr hasPass k m a run).2 (evalActsA cx aerr hasPass k m (a ++ b) run).2 := by
+  rw [att_evalActsA_append]
+  rcases evalActsA cx aerr hasPass k m a run with ⟨o, run1⟩
+  rcases o with _ | o
+  · exact ⟨id, id⟩
+  · cases o
+    · exact ⟨id, id⟩
+    · exact (att_acts_mono cx aerr b _ _ _ _).flags
+
+theorem att_evalActsA_nil {α : Type} (cx : PartCtx α) (aerr : Expr → Bool) (hasPass : Bool) (k : Nat) (m : α) (run : RunA) :
+    evalActsA cx aerr hasPass k m [] run = (some true, run) := by
+  rw [evalActsA]
+
+/-! ## what stands after a `break` in the same action list
+
+`expr_eval_break` returns MATCH: the AND chain goes on.  The plain actions that follow are appended
+behind the BREAK entry (which stays in the list until `expr_eval_block` removes it), a further
+`break` appends one more BREAK entry. -/
+
+theorem att_after_brk {env : Env} {L : Nat} (hctx : PCtx env L) (root : Msg) {od : Bool} {f : MFlags} (k : Nat) (m : Msg) :
+    ∀ (more pl : List Expr), AfterBrk more pl → (∀ x ∈ more, okA L od k x) →
+    ∀ (st : St) (pend : List (Nat × Expr)) (hp : Bool), RelG L st.ml pend hp true → SeenInv od f st →
+    (pl.any actErr = true ∧ (att_evalAndList env root k m more st).1 = .error) ∨
+    (pl.any actErr = false ∧ ∃ st', att_evalAndList env root k m more st = (.match, st') ∧
+      RelG L st'.ml (pend ++ pl.map fun a => (k, a)) hp true ∧ SeenInv od f st') := by
+  intro more
+  induction more with
+  | nil =>
+    intro pl hab _ st pend hp hR hs
+    obtain ⟨rfl, _⟩ := hab
+    right
+    exact ⟨rfl, st, rfl, by simpa using hR, hs⟩
+  | cons x xs ih =>
+    intro pl hab hok st pend hp hR hs
+    obtain ⟨hpl, hall⟩ := hab
+    have hokxs : ∀ y ∈ xs, okA L od k y := fun y hy => hok y (by simp [hy])
+    have hallxs : ∀ y ∈ xs, isActionExpr y = true ∨ ∃ l, y = .brk l := fun y hy => hall y (by simp [hy])
+    rcases hall x (by simp) with hact | ⟨l, rfl⟩
+    · -- a plain action behind the BREAK entry
+      have hpl' : pl = x :: xs.filter isActionExpr := by rw [hpl]; simp [List.filter, hact]
+      subst hpl'
+      rcases att_act_eval hctx root x k m hact (hok x (by simp)) st pend hp hR hs with ⟨he, hr⟩ | ⟨he, st1, hr, hR1, hs1⟩
+      · left
+        refine ⟨by simp [he], ?_⟩
+        simp only [att_evalAndList]
+        rcases h : eval env root x k m st with ⟨t, s⟩
+        rw [h] at hr
+        simp only at hr
+        subst hr
+        rfl
+      · simp only [att_evalAndList, hr, List.any_cons, he, Bool.false_or]
+        rcases ih (xs.filter isActionExpr) ⟨rfl, hallxs⟩ hokxs st1 (pend ++ [(k, x)]) hp hR1 hs1 with
+          ⟨h1, h2⟩ | ⟨h1, st', h2, h3, h4⟩
+        · left; exact ⟨h1, h2⟩
+        · right; exact ⟨h1, st', h2, by simpa using h3, h4⟩
+    · -- one more `break`
+      have hpl' : pl = xs.filter isActionExpr := by rw [hpl]; simp [List.filter, isActionExpr]
+      subst hpl'
+      simp only [att_evalAndList, att_eval_brk]
+      exact ih (xs.filter isActionExpr) ⟨rfl, hallxs⟩ hokxs _ pend hp (hR.marker_brk hctx.hL l k) hs
+
 /-! ## the simulation -/
 
 theorem att_sim {env : Env} {L : Nat} (hctx : PCtx env L) (root : Msg) (f : MFlags) (od : Bool) (n : Nat) :
     (∀ (rs : List RuleA), sizeOf rs < n → ∀ (es : List Expr), att_parseAllA es = some rs →
-      ∀ (k : Nat) (m : Msg), (∀ x ∈ es, okA L od k x) →
+      ∀ (k : Nat) (m : Msg), (∀ x ∈ es, okA L od k x) → (∀ x ∈ es, ctlPlaced x = true) →
       ∀ (nested outerPass : Bool) (start : Nat) (passSeen : Bool) (run : RunA) (st : St),
       (nested = false → outerPass = false ∧ start = 0) →
       RelA L st.ml run.pend (outerPass || passSeen) → SeenInv od f st →
@@ -222,7 +285,7 @@ theorem att_sim {env : Env} {L : Nat} (hctx : PCtx env L) (root : Msg) (f : MFla
       PostA L od f nested outerPass (evalRulesA (att_ctx env root f) actErr nested outerPass start k m rs passSeen run)
         (blockWrap (att_evalOrList env root k m es st))) ∧
     (∀ (as : List ActA), sizeOf as < n → ∀ (es : List Expr), att_parseActs es = some as →
-      ∀ (k : Nat) (m : Msg), (∀ x ∈ es, okA L od k x) →
+      ∀ (k : Nat) (m : Msg), (∀ x ∈ es, okA L od k x) → (∀ x ∈ es, ctlPlaced x = true) →
       ∀ (hasPass : Bool) (run : RunA) (st : St), RelA L st.ml run.pend hasPass → SeenInv od f st →
       (evalActsA (att_ctx env root f) actErr hasPass k m as run).2.crosses = false →
       (evalActsA (att_ctx env root f) actErr hasPass k m as run).2.leaks = false →
@@ -234,7 +297,7 @@ theorem att_sim {env : Env} {L : Nat} (hctx : PCtx env L) (root : Msg) (f : MFla
     obtain ⟨ihR, ihA⟩ := ih
     constructor
     · -- the rules of a block
-      intro rs hsz es hpa k m hok nested outerPass start passSeen run st hroot hR hs hcr hlk
+      intro rs hsz es hpa k m hok hpl nested outerPass start passSeen run st hroot hR hs hcr hlk
       cases rs with
       | nil =>
         have hes : es = [] := by
@@ -242,7 +305,7 @@ theorem att_sim {env : Env} {L : Nat} (hctx : PCtx env L) (root : Msg) (f : MFla
           | nil => rfl
           | cons x xs =>
             simp only [att_parseAllA] at hpa
-            cases h1 : parseRuleA x <;> cases h2 : att_parseAllA xs <;> simp [h1, h2] at hpa
+            cases h1 : parseRuleAW x <;> cases h2 : att_parseAllA xs <;> simp [h1, h2] at hpa
         subst hes
         rw [evalRulesA] at hcr ⊢
         simp only [att_evalOrList]
@@ -290,7 +353,7 @@ theorem att_sim {env : Env} {L : Nat} (hctx : PCtx env L) (root : Msg) (f : MFla
         | nil => simp [att_parseAllA] at hpa
         | cons x xs =>
           simp only [att_parseAllA] at hpa
-          cases hx : parseRuleA x with
+          cases hx : parseRuleAW x with
           | none => simp [hx] at hpa
           | some r' =>
             cases hxs : att_parseAllA xs with
@@ -301,9 +364,11 @@ theorem att_sim {env : Env} {L : Nat} (hctx : PCtx env L) (root : Msg) (f : MFla
               subst hr1 hr2
               have hokx := hok x (by simp)
               have hokxs : ∀ y ∈ xs, okA L od k y := fun y hy => hok y (by simp [hy])
+              have hplx := hpl x (by simp)
+              have hplxs : ∀ y ∈ xs, ctlPlaced y = true := fun y hy => hpl y (by simp [hy])
               rw [att_evalOrList_cons]
-              rcases att_parseRuleA_spec hx with ⟨lno, c, l, e, rs', rfl, rfl, hc, hpr⟩ |
-                ⟨lno, c, rhs, as, ctl, es', tail, rfl, rfl, hc, hchain, hpacts, htail⟩
+              rcases att_parseRuleA_spec hx hplx with ⟨lno, c, l, e, rs', rfl, rfl, hc, hpr⟩ |
+                ⟨lno, c, rhs, as, ctl, es', tail, as0, rfl, rfl, hc, hchain, hpacts, pl, rfl, hshape⟩
               · -- a rule with a nested block
                 obtain ⟨hokc, hokb⟩ := okA_mtch hokx
                 have hoke := okA_block hokb
@@ -321,12 +386,13 @@ theorem att_sim {env : Env} {L : Nat} (hctx : PCtx env L) (root : Msg) (f : MFla
                   rw [evalRulesA] at hcr hlk ⊢
                   simp only [hcv] at hcr hlk ⊢
                   simp only [att_orStep]
-                  exact ihR rest' hrest xs hxs k m hokxs _ _ _ _ _ st1 hroot hR1 hs1 hcr hlk
+                  exact ihR rest' hrest xs hxs k m hokxs hplxs _ _ _ _ _ st1 hroot hR1 hs1 hcr hlk
                 | «match» =>
                   have hfl := att_flags_blk_rule (att_ctx env root f) actErr nested outerPass start k m lno c rs' rest'
                     passSeen run hcv
                   have hR1' : RelA L st1.ml run.pend ((outerPass || passSeen) || false) := by simpa using hR1
                   have hpost := ihR rs' hrs' (orChain e) (att_parseRulesA_orChain e rs' hpr) k m (att_okA_orChain e hoke)
+                    (ctlPlaced_orChain e (by simpa [ctlPlaced] using ctlPlaced_mtch_rhs hplx))
                     true (outerPass || passSeen) run.pend.length false run st1 (by intro h; cases h) hR1' hs1
                     (hfl.1 hcr) (hfl.2 hlk)
                   rw [evalRulesA] at hcr hlk ⊢
@@ -353,19 +419,19 @@ theorem att_sim {env : Env} {L : Nat} (hctx : PCtx env L) (root : Msg) (f : MFla
                     simp only at h1 h3
                     subst h1
                     simp only [att_orStep]
-                    exact ihR rest' hrest xs hxs k m hokxs nested outerPass start passSeen run1 s hroot h3.1 h3.2 hcr hlk
+                    exact ihR rest' hrest xs hxs k m hokxs hplxs nested outerPass start passSeen run1 s hroot h3.1 h3.2 hcr hlk
                   | broke =>
                     obtain ⟨h1, h2⟩ := hpost
                     have h3 := h2 rfl
                     simp only at h1 h3
                     subst h1
                     simp only [att_orStep]
-                    exact ihR rest' hrest xs hxs k m hokxs nested outerPass start passSeen run1 s hroot h3.1 h3.2 hcr hlk
+                    exact ihR rest' hrest xs hxs k m hokxs hplxs nested outerPass start passSeen run1 s hroot h3.1 h3.2 hcr hlk
               · -- a rule with actions
                 obtain ⟨hokc, hokrhs⟩ := okA_mtch hokx
                 obtain ⟨st1, hR1, hs1, hev⟩ := att_rule_cond hctx root f lno c rhs k m hc hokc.1 hokc.2.2.2.1 st hR hs
                 rw [hev]
-                have has : sizeOf as < n := by
+                have has : sizeOf (as0 ++ pl.map ActA.plain) < n := by
                   simp only [List.cons.sizeOf_spec, RuleA.acts.sizeOf_spec] at hsz; omega
                 cases hcv : condValA (att_ctx env root f) c k m with
                 | error =>
@@ -376,27 +442,35 @@ theorem att_sim {env : Env} {L : Nat} (hctx : PCtx env L) (root : Msg) (f : MFla
                   rw [evalRulesA] at hcr hlk ⊢
                   simp only [hcv] at hcr hlk ⊢
                   simp only [att_orStep]
-                  exact ihR rest' hrest xs hxs k m hokxs _ _ _ _ _ st1 hroot hR1 hs1 hcr hlk
+                  exact ihR rest' hrest xs hxs k m hokxs hplxs _ _ _ _ _ st1 hroot hR1 hs1 hcr hlk
                 | «match» =>
-                  have hfl := att_flags_acts_rule (att_ctx env root f) actErr nested outerPass start k m lno c as ctl rest'
-                    passSeen run hcv
+                  have hfl := att_flags_acts_rule (att_ctx env root f) actErr nested outerPass start k m lno c
+                    (as0 ++ pl.map ActA.plain) ctl rest' passSeen run hcv
+                  have hflp := att_flags_acts_prefix (att_ctx env root f) actErr (outerPass || passSeen) k m as0
+                    (pl.map ActA.plain) run
+                  have has0 : sizeOf as0 < n := Nat.lt_of_le_of_lt (att_sizeOf_append_left as0 _) has
                   have hokall := att_okA_andChain rhs hokrhs
                   rw [hchain] at hokall
                   have hokes : ∀ y ∈ es', okA L od k y := fun y hy => hokall y (by simp [hy])
-                  have hA := ihA as has es' hpacts k m hokes (outerPass || passSeen) run st1 hR1 hs1
-                    (hfl.1 hcr) (hfl.2 hlk) tail
-                  have hmA := att_acts_mono (att_ctx env root f) actErr as (outerPass || passSeen) k m run
+                  have hplall := ctlPlaced_andChain rhs (ctlPlaced_mtch_rhs hplx)
+                  rw [hchain] at hplall
+                  have hples : ∀ y ∈ es', ctlPlaced y = true := fun y hy => hplall y (by simp [hy])
+                  have hA := ihA as0 has0 es' hpacts k m hokes hples (outerPass || passSeen) run st1 hR1 hs1
+                    (hflp.1 (hfl.1 hcr)) (hflp.2 (hfl.2 hlk)) tail
+                  have hmA := att_acts_mono (att_ctx env root f) actErr as0 (outerPass || passSeen) k m run
                   rw [evalRulesA] at hcr hlk ⊢
                   simp only [hcv] at hcr hlk ⊢
                   rw [att_eval_andChain, hchain]
-                  rcases ha : evalActsA (att_ctx env root f) actErr (outerPass || passSeen) k m as run with ⟨b, run1⟩
+                  rw [att_evalActsA_append] at hcr hlk ⊢
+                  rcases ha : evalActsA (att_ctx env root f) actErr (outerPass || passSeen) k m as0 run with ⟨b, run1⟩
                   rw [ha] at hA hmA
-                  simp only [ha] at hcr hlk ⊢
                   unfold ActsPost at hA
                   rcases b with _ | b
-                  · exact att_blockWrap_orStep_error env root k m xs hA
+                  · simp only [ha] at hcr hlk ⊢
+                    exact att_blockWrap_orStep_error env root k m xs hA
                   · cases b
                     · -- an attachment block of the rule matched on no part
+                      simp only [ha] at hcr hlk ⊢
                       obtain ⟨st', h2, h3, hs'⟩ := hA
                       rw [h2]
                       simp only [att_orStep]
@@ -416,32 +490,44 @@ theorem att_sim {env : Env} {L : Nat} (hctx : PCtx env L) (root : Msg) (f : MFla
                         rw [hext, this, List.append_nil]
                       simp only at h3
                       rw [hpe] at h3
-                      exact ihR rest' hrest xs hxs k m hokxs nested outerPass start passSeen _ st' hroot h3 hs' hcr hlk
+                      exact ihR rest' hrest xs hxs k m hokxs hplxs nested outerPass start passSeen _ st' hroot h3 hs' hcr hlk
                     · obtain ⟨st', h2, h3, hs', hne⟩ := hA
                       rw [h2]
-                      rcases htail with ⟨rfl, rfl, hasne⟩ | ⟨xc, rfl, hcx⟩
-                      · simp only [att_evalAndList, att_orStep]
+                      rcases hshape with ⟨rfl, rfl, rfl, hasne⟩ | ⟨rfl, rfl, lp, ps, rfl⟩ | ⟨rfl, lb, more, rfl, hab⟩
+                      · -- no control action
+                        simp only [ha, List.map_nil, att_evalActsA_nil] at hcr hlk ⊢
+                        simp only [att_evalAndList, att_orStep]
                         obtain ⟨b1, b2, b3⟩ := att_blockWrap_matched h3 (hne hasne)
                         exact ⟨b1, b2, fun ho => by rw [b3]; exact hs' ho, hne hasne⟩
-                      · rw [att_evalAndList_single]
-                        rcases att_isCtlExpr_spec hcx with ⟨rfl, lp, rfl⟩ | ⟨rfl, lb, rfl⟩
-                        · rw [att_eval_pass]
+                      · -- `pass`: the marker is appended, the rest of the chain is not looked at
+                        simp only [ha, List.map_nil, att_evalActsA_nil] at hcr hlk ⊢
+                        simp only [att_evalAndList, att_eval_pass, att_orStep]
+                        have hR2 := h3.marker_pass hctx.hL lp k
+                        exact ihR rest' hrest xs hxs k m hokxs hplxs nested outerPass start true _ _ hroot
+                          (by simpa using hR2) hs' hcr hlk
+                      · -- `break`: the marker is appended, the plain actions behind it are collected
+                        have hokmore : ∀ y ∈ more, okA L od k y := fun y hy => hokall y (by simp [hy])
+                        have hR2 := h3.marker_brk hctx.hL lb k
+                        obtain ⟨a1, a2⟩ := att_evalActsA_plain (att_ctx env root f) actErr (outerPass || passSeen) k m pl run1
+                        simp only [att_evalAndList, att_eval_brk]
+                        rcases att_after_brk hctx root k m more pl hab hokmore
+                            { st' with ml := st'.ml ++ [{ ty := .brk, lno := lb, part := k }] } run1.pend
+                            (outerPass || passSeen) hR2 hs' with ⟨e1, e2⟩ | ⟨e1, st'', e2, e3, e4⟩
+                        · obtain ⟨r, g1, _, _⟩ := a1 e1
+                          simp only [g1]
+                          exact att_blockWrap_orStep_error env root k m xs e2
+                        · simp only [ha, a2 e1] at hcr hlk ⊢
+                          rw [e2]
                           simp only [att_orStep]
-                          dsimp only at hcr hlk ⊢
-                          have hR2 := h3.marker_pass hctx.hL lp k
-                          exact ihR rest' hrest xs hxs k m hokxs nested outerPass start true _ _ hroot
-                            (by simpa using hR2) hs' hcr hlk
-                        · rw [att_eval_brk]
-                          simp only [att_orStep]
-                          rw [att_blockWrap_break h3 lb k _ (by decide)]
+                          rw [att_blockWrap_brk e3 _ (by decide)]
                           refine ⟨rfl, fun hn => ?_⟩
                           subst hn
                           simp only [Bool.true_and, Bool.or_eq_false_iff] at hcr
                           have hps : passSeen = false := hcr.2
                           subst hps
-                          exact ⟨by simpa using h3, hs'⟩
+                          exact ⟨by simpa using e3.remove_brk, e4⟩
     · -- the actions of a rule
-      intro as hsz es hpa k m hok hasPass run st hR hs hcr hlk rest
+      intro as hsz es hpa k m hok hpl hasPass run st hR hs hcr hlk rest
       cases as with
       | nil =>
         have hes : es = [] := by
@@ -449,7 +535,7 @@ theorem att_sim {env : Env} {L : Nat} (hctx : PCtx env L) (root : Msg) (f : MFla
           | nil => rfl
           | cons x xs =>
             simp only [att_parseActs] at hpa
-            cases h1 : parseActA x <;> cases h2 : att_parseActs xs <;> simp [h1, h2] at hpa
+            cases h1 : parseActAW x <;> cases h2 : att_parseActs xs <;> simp [h1, h2] at hpa
         subst hes
         rw [evalActsA]
         exact ⟨st, rfl, hR, hs, fun h => absurd rfl h⟩
@@ -460,7 +546,7 @@ theorem att_sim {env : Env} {L : Nat} (hctx : PCtx env L) (root : Msg) (f : MFla
         | nil => simp [att_parseActs] at hpa
         | cons x xs =>
           simp only [att_parseActs] at hpa
-          cases hx : parseActA x with
+          cases hx : parseActAW x with
           | none => simp [hx] at hpa
           | some a' =>
             cases hxs : att_parseActs xs with
@@ -471,6 +557,8 @@ theorem att_sim {env : Env} {L : Nat} (hctx : PCtx env L) (root : Msg) (f : MFla
               subst hr1 hr2
               have hokx := hok x (by simp)
               have hokxs : ∀ y ∈ xs, okA L od k y := fun y hy => hok y (by simp [hy])
+              have hplx := hpl x (by simp)
+              have hplxs : ∀ y ∈ xs, ctlPlaced y = true := fun y hy => hpl y (by simp [hy])
               rcases att_parseActA_spec hx with ⟨l, l', e, rs, rfl, rfl, hprs⟩ | ⟨rfl, hact⟩
               · -- an attachment block
                 have hrs : sizeOf rs < n := by
@@ -507,6 +595,7 @@ theorem att_sim {env : Env} {L : Nat} (hctx : PCtx env L) (root : Msg) (f : MFla
                         rw [eval_block, att_eval_orChain]
                         exact ihR rs hrs (orChain e) (att_parseRulesA_orChain e rs hprs) (partIndex k i) q
                           (att_okA_orChain e (okA_block (okA_attBlock hokx (partIndex_ne_zero k i))))
+                          (ctlPlaced_orChain e (by simpa [ctlPlaced] using hplx))
                           true false run'.pend.length false run' st' (by intro h; cases h) (by simpa using hR') hs' hc' hl')
                       (fun i q r => att_rules_mono (att_ctx env root f) actErr rs _ _ _ _ _ _ _)
                       ps 0 false { run with crosses := run.crosses || (false && !ps.isEmpty) } st hR hs
@@ -534,7 +623,7 @@ theorem att_sim {env : Env} {L : Nat} (hctx : PCtx env L) (root : Msg) (f : MFla
                       · obtain ⟨st', h2, h3, hs', hne1⟩ := hP
                         rw [if_pos rfl] at h2
                         dsimp only at hcr hlk ⊢
-                        have hA := ihA as'' has' xs hxs k m hokxs false run1 st' h3 hs' hcr hlk rest
+                        have hA := ihA as'' has' xs hxs k m hokxs hplxs false run1 st' h3 hs' hcr hlk rest
                         have hm2 := att_acts_mono (att_ctx env root f) actErr as'' false k m run1
                         have hstep : att_evalAndList env root k m ((.attBlock l (.block l' e) :: xs) ++ rest) st =
                             att_evalAndList env root k m (xs ++ rest) st' := by
@@ -562,7 +651,7 @@ theorem att_sim {env : Env} {L : Nat} (hctx : PCtx env L) (root : Msg) (f : MFla
                   subst hr
                   rfl
                 · simp only [he, Bool.false_eq_true, if_false] at hcr hlk ⊢
-                  have hA := ihA as'' has' xs hxs k m hokxs hasPass { run with pend := run.pend ++ [(k, x)] } st1 hR1 hs1
+                  have hA := ihA as'' has' xs hxs k m hokxs hplxs hasPass { run with pend := run.pend ++ [(k, x)] } st1 hR1 hs1
                     hcr hlk rest
                   have hm2 := att_acts_mono (att_ctx env root f) actErr as'' hasPass k m
                     { run with pend := run.pend ++ [(k, x)] }
